@@ -2,13 +2,19 @@
    Proved: the abstract specification (Spec/StoreSpec.v) that prescribes, per (listener, service, source), the
    history of offered/stopped notifications as a function of the inputs alone alternates for EVERY input history,
    reports a reboot's "stopped" before the same message's "offered", reports removal exactly once, and expires on
-   time; plus the TimedStore machine invariant (see C09).  NOT proved: the end-to-end refinement
-   C05_model_refines_spec (Model/Stack.v run produces exactly that history for every scenario and schedule);
-   checked on every run by complete-trace correspondence and by check_C05 on implementation traces.
-   Hypothesis of the specification: a listener is registered under at most one filter matching a given
-   service (otherwise known finding F13). *)
-From PS Require Import Lib.Base Generated.Consts Model.SdTypes Model.Config Model.Session Model.StackTypes
-  Spec.TraceSpec Spec.StoreSpec Proofs.StoreSpecProofs.
+   time; plus the TimedStore machine invariant (see C09).
+   Over WHOLE RUNS of the full stack model, for every scenario and schedule (Proofs/WorldFound.v, invariant F5 kept by
+   every callback, loop step and run): for every recording listener that never was registered while it already had a
+   registration (ghost event GMulti - outside that domain lives finding F13) the latest notification about (source,
+   service) is "offered" EXACTLY when an offer of that service from that source is stored and the listener is
+   registered for it (a filter that matches, or watch-all); "offered" is only ever notified when the latest notification
+   is not "offered", "stopped" only when it is.  A StopOffer removes the stored offer whether or not anybody is
+   watching (the model-level statement of the repair of finding F17).
+   NOT proved: the timed part of the refinement (that the stored offers are exactly those the inputs prescribe, instant
+   by instant - finding F18 shows the code deviates when nobody watches); checked on every run by complete-trace
+   correspondence and by check_C05 (with check_C05_last) on implementation traces. *)
+From PS Require Import Lib.Base Generated.Consts Model.SdTypes Model.Config Model.Session Model.StackTypes Model.Stack Model.StackIO
+  Spec.TraceSpec Spec.StoreSpec Proofs.StoreSpecProofs Proofs.KeyEquiv Proofs.WorldInv Proofs.WorldInv2 Proofs.FoundLog Proofs.Same5 Proofs.WorldFound.
 
 Theorem C05_history_alternates : forall touches t_end e,
   expected_history touches t_end = Some e -> alternates true (map snd e) = true.
@@ -26,7 +32,64 @@ Theorem C05_expires_on_time : forall t0 ttl na t_end,
   expected_history [(t0, TUp ttl na true)] t_end = Some [(t0, true); (t0 + sec ttl, false)].
 Proof. exact expiry_exactly_once_on_time. Qed.
 
+(* over whole runs of the stack: truthful and alternating, in every reachable state of every scenario *)
+Theorem C05_truthful_alternating_history_on_the_stack : forall s sc, d_scenario s = Some sc ->
+  let w := fst (run_scenario sc) in
+  forall id, tainted id (glog w) = false ->
+    (forall a k, up_l id a k (out w) = stored a k w && regm id k w) /\ altl id (out w) = true.
+Proof. exact reachable_discovery_truthful. Qed.
+(* a StopOffer withdraws the stored offer, watched or not *)
+Theorem C05_stop_offer_withdraws_watched_or_not : forall X e a s w, GP X w -> from_offer_entry e = Ok s -> e_ttl e = 0 ->
+  forall k, fkey s k = true -> stored a k (handle_offer e a w) = false.
+Proof. exact stop_offer_withdraws. Qed.
+(* the invariant is kept by each operation on its own ... *)
+Theorem C05_kept_by_new_offer_and_refresh : forall X ttl a k w, GP X w -> F5 w -> F5 (fst (store_refresh SFound ttl a k w)).
+Proof. exact F5_store_refresh_found. Qed.
+Theorem C05_kept_by_stop_offer : forall X a k w, GP X w -> F5 w -> F5 (store_stop SFound a k w).
+Proof. exact F5_store_stop_found. Qed.
+Theorem C05_kept_by_expiry : forall X a k w, GP X w -> F5 w -> F5 (store_expired SFound a k w).
+Proof. exact F5_store_expired_found. Qed.
+Theorem C05_kept_by_reboot_cleanup : forall X a w, GP X w -> F5 w -> F5 (store_stop_all_for_address SFound a w).
+Proof. exact F5_store_stop_all_for_address_found. Qed.
+Theorem C05_kept_by_connection_loss : forall X w, GP X w -> F5 w -> F5 (store_stop_all SFound w).
+Proof. exact F5_store_stop_all_found. Qed.
+Theorem C05_kept_by_watch : forall X f l w, GP X w -> F5 w -> F5 (watch_service f l w).
+Proof. exact F5_watch_service. Qed.
+Theorem C05_kept_by_unwatch : forall X f l w, GP X w -> F5 w -> F5 (stop_watch_service f l w).
+Proof. exact F5_stop_watch_service. Qed.
+Theorem C05_kept_by_watch_all : forall X l w, GP X w -> F5 w -> F5 (watch_all_services l w).
+Proof. exact F5_watch_all_services. Qed.
+Theorem C05_kept_by_unwatch_all : forall X l w, GP X w -> F5 w -> F5 (stop_watch_all_services l w).
+Proof. exact F5_stop_watch_all_services. Qed.
+(* ... and by every step of the loop *)
+Theorem C05_kept_by_every_loop_step : forall w, GGF [] w -> GGF [] (lstep1 w).
+Proof. exact GGF_lstep1. Qed.
+(* altl / up_l distinguish: a proper history / offered twice / stopped first / another listener's events do not count;
+   the taint is read off the ghost history *)
+Example C05_altl_example :
+  let s := mkService 0x1111 1 1 7 [] [] [] in
+  altl 0 [(3, EOffered 0 s 7); (2, EStopped 0 s 7); (1, EOffered 0 s 7)] = true
+  /\ up_l 0 7 s [(3, EOffered 0 s 7); (2, EStopped 0 s 7); (1, EOffered 0 s 7)] = true
+  /\ altl 0 [(2, EOffered 0 s 7); (1, EOffered 0 s 7)] = false
+  /\ altl 0 [(1, EStopped 0 s 7)] = false
+  /\ altl 0 [(2, EOffered 1 s 7); (1, EOffered 0 s 7)] = true
+  /\ altl 0 [(2, EOffered 0 s 8); (1, EOffered 0 s 7)] = true
+  /\ tainted 0 [(5, GMulti 0)] = true /\ tainted 1 [(5, GMulti 0)] = false.
+Proof. cbv zeta. repeat split; vm_compute; reflexivity. Qed.
+
 Print Assumptions C05_history_alternates.
 Print Assumptions C05_reboot_stopped_before_offered.
 Print Assumptions C05_withdrawn_once.
 Print Assumptions C05_expires_on_time.
+Print Assumptions C05_truthful_alternating_history_on_the_stack.
+Print Assumptions C05_stop_offer_withdraws_watched_or_not.
+Print Assumptions C05_kept_by_watch.
+Print Assumptions C05_kept_by_unwatch.
+Print Assumptions C05_kept_by_every_loop_step.
+Print Assumptions C05_kept_by_new_offer_and_refresh.
+Print Assumptions C05_kept_by_stop_offer.
+Print Assumptions C05_kept_by_expiry.
+Print Assumptions C05_kept_by_reboot_cleanup.
+Print Assumptions C05_kept_by_connection_loss.
+Print Assumptions C05_kept_by_watch_all.
+Print Assumptions C05_kept_by_unwatch_all.
